@@ -30,6 +30,12 @@ def build_project_sig(sig, names):
             msig.add_index_sig(IndexSignature(
                 fields=[names.field(x) for x in ix['fields']],
                 name=None if ix.get('name', NONE) == NONE else ix['name']))
+        for c in ms.get('cons') or []:
+            from django_evolution.signature import ConstraintSignature
+            from ..absmodel import concrete_constraint
+            d = concrete_constraint(c, names)
+            typ, cname = d.pop('type'), d.pop('name')
+            msig.add_constraint_sig(ConstraintSignature(name=cname, constraint_type=typ, attrs=d))
         for fn, fs in ms['fields'].items():
             attrs = dict(as_dict(fs['attrs']))
             msig.add_field_sig(FieldSignature(
